@@ -188,6 +188,44 @@ theorem coherent_fetch_ideal_partial (sl : List Nat) (ll : List (Option Nat)) (o
       Bool.false_or, Bool.true_and, List.all_eq_true, List.contains_iff_mem]
     exact this
 
+/-- **No spurious miss: a live entry is found on every node.**  No server has an entry limit
+(`thread_cache_factory(0)`; the L1s may be as small as they like), the stores are `WFwire`: if the ideal
+shared cache holds `k ↦ e` and `e` is not expired on the server's clock, then a fetch of `k` by **any**
+node — with or without L1, whatever stale entry its L1 holds — hits and returns `e`'s value and deadline. -/
+theorem live_entry_found_on_every_node (sl : List Nat) (ll : List (Option Nat)) (hn : 0 < sl.length) (hsl : ∀ l ∈ sl, l = 0)
+    (ops : List Op) (hlen : ops.length < 2 ^ 64) (hok : HistOk ops) (hwf : HistWF ops)
+    (c : Nat) (nowC nowS : Time) (k : Key) (tags : Bool) (hk : k.length < 2147483648)
+    (e : Entry) (hid : idealOf ops k = some e) (hlive : ¬ e.deadline < nowS) :
+    ∃ ts g, (step (run (Cluster.init sl ll) ops) (.fetch c nowC nowS k tags)).2 = .hit e.val ts e.deadline g := by
+  obtain ⟨hr, hsm⟩ := run_init_eq sl ll ops hok
+  rw [hr, C10.step_eq_astep hsm (op := .fetch c nowC nowS k tags) hk]
+  exact live_entry_found_abs sl ll hsl ops hlen hwf c nowC nowS k tags e hn hid hlive
+
+/-- **The whole coherence predicate holds of every fetch answer** (the predicate the check evaluates on the
+real clients, with `mayEvict = false`): servers without limit, `WFwire` stores, NUL-free keys — a hit is the
+ideal cache's current entry (value, deadline, all its triggers), a miss happens only if the ideal cache
+holds nothing live for the key. -/
+theorem answerOk_of_every_fetch_partial (sl : List Nat) (ll : List (Option Nat)) (hn : 0 < sl.length) (hsl : ∀ l ∈ sl, l = 0)
+    (ops : List Op) (hlen : ops.length < 2 ^ 64) (hok : HistOk ops) (hwf : HistWF ops) (hkn : KeysNulFree ops)
+    (c : Nat) (nowC nowS : Time) (k : Key) (tags : Bool) (hk : k.length < 2147483648) :
+    Spec.answerOk (idealOf ops) nowS k false tags (step (run (Cluster.init sl ll) ops) (.fetch c nowC nowS k tags)).2 = true := by
+  rcases fetchOp_out wireT (run (Cluster.init sl ll) ops) c nowC nowS k tags with hm | ⟨v, ts, d, g, hh⟩
+  · have hm' : (step (run (Cluster.init sl ll) ops) (.fetch c nowC nowS k tags)).2 = .miss := hm
+    rw [hm']
+    simp only [Spec.answerOk, Bool.false_or]
+    cases hid : idealOf ops k with
+    | none => rfl
+    | some e =>
+      simp only [decide_eq_true_eq]
+      apply Classical.byContradiction
+      intro hlive
+      obtain ⟨ts, g, hhit⟩ := live_entry_found_on_every_node sl ll hn hsl ops hlen hok hwf c nowC nowS k tags hk e hid hlive
+      rw [hm'] at hhit
+      cases hhit
+  · have hh' : (step (run (Cluster.init sl ll) ops) (.fetch c nowC nowS k tags)).2 = .hit v ts d g := hh
+    rw [hh']
+    exact (coherent_fetch_ideal_partial sl ll ops hlen hok hwf c nowC nowS k tags hk v ts d g hh' false).2 hkn
+
 /-! ## the excluded points: the full statements are false of the code (known findings) -/
 
 private def k₁ : Key := [107]
@@ -288,6 +326,10 @@ example : (step (run (Cluster.init [0, 0] [some 5, none, some 0]) (h₁.take 4))
 example : (step (run (Cluster.init [0, 0] [some 5, none, some 0]) h₁) (.fetch 0 1003 1003 k₁ true)).2
     = .hit [] [t₁, k₁] 2000 1 := by decide
 example : (idealOf h₁ k₁).map (·.val) = some [] := by decide
+example : KeysNulFree h₁ := by
+  intro op ho
+  simp only [h₁, List.mem_cons, List.not_mem_nil, or_false] at ho
+  rcases ho with h | h | h | h | h <;> subst h <;> simp [k₁]
 -- rise by the client without L1 invalidates what sits in the others' L1s
 example : (step (run (Cluster.init [0, 0] [some 5, none, some 0]) (h₁ ++ [.rise 1 k₁])) (.fetch 0 1003 1003 k₁ true)).2 = .miss := by
   decide
